@@ -2,6 +2,7 @@
 For each representative operation: count pass (which libc calls does it make beneath the work prefix),
 then one run per call position k and errno with that call failing; success is only acceptable if the
 directory equals what the fault-free run produces."""
+import json
 import os
 
 import envmodel
@@ -198,11 +199,17 @@ def execute(root, opname, shim, mode, k=0, err=5):
         finally:
             mon.close()
         ok, detail = "err" not in rep, rep.get("detail", "")[:200]
+        # what the buildpack's callbacks were shown (metadata, layer data) and the state that was reported belong to the outcome: an operation
+        # that claims success under a fault must have shown and reported what it shows and reports without the fault
+        observed = json.dumps({"callbacks": rep.get("callbacks"), "state": rep.get("state"), "data": rep.get("data")}, sort_keys=True).replace(root, "<root>")
     else:
         st, marker, stderr = lay.run(step, lay.detect_args() if step == "detect" else lay.build_args(), lay.env(), BP_SCRIPT, extra_env=env, preexec=(lambda: os.umask(um)))
         ok, detail = st == 0, "exit %d %s" % (st, stderr[-150:])
+        observed = None
     trace = vp.read_trace(log)
     snap = vp.snapshot(w, lambda rel: rel in (b"script.json",) or rel.startswith(b"bp/bin"))
+    if observed is not None and ok:
+        snap[b"<what the callbacks saw and the call returned>"] = ("f", 0, observed.encode())
     return ok, detail, trace, snap
 
 
